@@ -257,6 +257,26 @@ func genFn(g *GenCtx, n int) {
 		if g.R.Chance(1, 20) {
 			ws = ^uint64(0) - uint64(g.R.Intn(1200)) // window end wraps in uint64
 		}
+		// the send loop's frame budget: window, in flight, timeouts, buffer length around each other
+		w := Pick(g.R, []uint64{0, 1, 7, 10, 11, 512, 1000, 65535}) + uint64(g.R.Intn(3))
+		if w > 65535 {
+			w = 65535
+		}
+		near := func(x uint64) int64 { return int64(x) + int64(g.R.Intn(5)) - 2 }
+		u := near(Pick(g.R, []uint64{0, 1, w / 2, w}))
+		if u < 0 || u > 65535 {
+			u = 0
+		}
+		nf := near(Pick(g.R, []uint64{0, 1, w, 2 * w, 3}))
+		if nf < 0 {
+			nf = 0
+		}
+		c := near(Pick(g.R, []uint64{0, 1, w, uint64(nf)}))
+		start := near(Pick(g.R, []uint64{0, 0, 0, uint64(nf), w, 1}))
+		if g.R.Chance(4, 5) && (c < 0 || start < 0) {
+			c, start = 0, 0
+		}
+		g.Op("fts %d %d %d %d %d %d", w, u, c, nf, g.R.Intn(2), start)
 		g.Op("inb %d %d %d", ws, ws+1000, ws+Pick(g.R, []uint64{0, 1, 999, 1000, 1001, ^uint64(0), ^uint64(0) - 1, 2000, 1 << 40}))
 	}
 }
@@ -482,6 +502,20 @@ func runCore(in *bufio.Scanner, out *bufio.Writer) {
 			n, ok2 := u64(f[2])
 			if ok1 && ok2 && n < two32 {
 				res = Guard(func() string { return strconv.FormatUint(tubes.VerifUnwrapFrameNo(a, uint32(n)), 10) })
+			}
+		case len(f) == 7 && f[0] == "fts" && fn:
+			w, ok1 := u64(f[1])
+			u, ok2 := u64(f[2])
+			c, err3 := strconv.ParseInt(f[3], 10, 64)
+			n, ok4 := u64(f[4])
+			rto, ok5 := u64(f[5])
+			start, err6 := strconv.ParseInt(f[6], 10, 64)
+			const lim = 1000000000
+			if ok1 && ok2 && err3 == nil && ok4 && ok5 && err6 == nil && w < 65536 && u < 65536 && n <= 1000000 && rto <= 1 &&
+				c >= -lim && c <= lim && start >= -lim && start <= lim {
+				res = Guard(func() string {
+					return strconv.Itoa(tubes.VerifFramesToSend(uint16(w), uint16(u), int(c), int(n), rto == 1, int(start)))
+				})
 			}
 		case len(f) == 4 && f[0] == "inb" && fn:
 			a, ok1 := u64(f[1])
